@@ -3,99 +3,14 @@
 // readers that deliver 1, 2, 3 or 5 bytes per call; match result and consumed byte count must be equal (the exhaustive part
 // of the check ties the memory_input answers to the RFC oracle and to the model).
 // Prints "BAD ..." lines and "DONE <cases> <bad>".
-#include <cstdint>
-#include <cstdio>
-#include <string>
-#include <vector>
+#include "buf_twin.hpp"
 
-#include <tao/pegtl.hpp>
-#include <tao/pegtl/buffer_input.hpp>
 #include <tao/pegtl/contrib/uint16.hpp>
 #include <tao/pegtl/contrib/uint32.hpp>
 #include <tao/pegtl/contrib/uint64.hpp>
 #include <tao/pegtl/contrib/uint8.hpp>
 #include <tao/pegtl/contrib/utf16.hpp>
 #include <tao/pegtl/contrib/utf32.hpp>
-
-namespace pegtl = tao::pegtl;
-
-struct stride_reader
-{
-   const char* p;
-   const char* e;
-   std::size_t k;
-   stride_reader( const char* b, const char* en, const std::size_t stride )
-      : p( b ), e( en ), k( stride )
-   {}
-   std::size_t operator()( char* buffer, const std::size_t length )
-   {
-      std::size_t n = std::size_t( e - p );
-      if( n > k ) {
-         n = k;
-      }
-      if( n > length ) {
-         n = length;
-      }
-      for( std::size_t i = 0; i < n; ++i ) {
-         buffer[ i ] = *p++;
-      }
-      return n;
-   }
-};
-
-struct obs
-{
-   char kind = '?';
-   std::size_t consumed = 0;
-   bool operator==( const obs& o ) const { return kind == o.kind && consumed == o.consumed; }
-};
-
-template< typename Rule, typename In >
-static obs run( In&& in )
-{
-   obs r;
-   try {
-      r.kind = pegtl::parse< Rule >( in ) ? 'T' : 'F';
-   }
-   catch( const std::exception& ) {
-      r.kind = 'X';
-   }
-   r.consumed = in.byte();
-   return r;
-}
-
-static long n_cases = 0, n_bad = 0;
-
-static std::string hex( const std::string& s )
-{
-   static const char* d = "0123456789abcdef";
-   std::string h;
-   for( const unsigned char c : s ) {
-      h += d[ c >> 4 ];
-      h += d[ c & 15 ];
-   }
-   return h.empty() ? "-" : h;
-}
-
-template< typename Rule >
-static void one_rule( const char* text, const std::vector< std::string >& inputs )
-{
-   int reported = 0;
-   for( const std::string& d : inputs ) {
-      const obs ref = run< Rule >( pegtl::memory_input<>( d.data(), d.size(), "m" ) );
-      for( const std::size_t k : { std::size_t( 1 ), std::size_t( 2 ), std::size_t( 3 ), std::size_t( 5 ) } ) {
-         ++n_cases;
-         const obs got = run< Rule >( pegtl::buffer_input< stride_reader, pegtl::eol::lf_crlf, std::string, 4 >( "b", 24, d.data(), d.data() + d.size(), k ) );
-         if( !( got == ref ) ) {
-            ++n_bad;
-            if( reported++ < 2 ) {
-               std::printf( "BAD %s on %s through buffer_input with a reader delivering %zu byte(s) per call: %c consumed %zu instead of %c consumed %zu (memory_input)\n",
-                            text, hex( d ).c_str(), k, got.kind, got.consumed, ref.kind, ref.consumed );
-            }
-         }
-      }
-   }
-}
 
 static std::string u8( const std::uint32_t c )
 {
